@@ -216,6 +216,16 @@ def _gen_body(ctx, p, g):
         ctx.require(all(e in k2 for e in H._edge), f"{g}: an edge label is not a key of k2")
         ctx.require(all(all(x in H._node for x in e) for e in edges_of(H)), f"{g}: an edge contains a non-node")
         ctx.require(not nets.inv_H(H), f"{g}: incidence invariant broken")
+    elif g == "watts_strogatz_hypergraph":
+        n, d, k, l = p["n"], p["d"], p["k"], p["l"]
+        pr = ctx.real("p", 0, 1)
+        H = _run(ctx, lambda: xgi.watts_strogatz_hypergraph(n, d, k, l, pr))
+        ctx.require(set(H._node) == set(range(n)) and len(H._node) == n, f"{g}: node set is not range(n)")
+        ctx.require(all(all(x in H._node for x in e) for e in edges_of(H)), f"{g}: an edge contains a non-node")
+        es = edges_of(H)
+        ctx.require(all(len(e) == d for e in es), f"{g}: an edge does not have exactly d nodes (the model is d-uniform)")
+        ctx.require(len(es) == n * (k // 2), f"{g}: rewiring changed the number of edges")
+        ctx.require(not nets.inv_H(H), f"{g}: incidence invariant broken")
     elif g == "complete_hypergraph":
         n = p["n"]
         kw = p["kw"]
@@ -523,6 +533,7 @@ def spec(tier, seed):
     for k, m in (({"0": 1, "1": 1, "2": 2}, 2), ({"0": 2, "1": 2, "2": 2}, 3), ({"0": 1, "1": 2}, 2), ({"0": 2, "1": 1, "2": 1, "3": 1}, 2)):
         units.append(("C16.gen", {"gen": "uniform_hypergraph_configuration_model", "k": k, "m": m}))
     units.append(("C16.gen", {"gen": "chung_lu_hypergraph", "k1": {"0": 1, "1": 2, "2": 1}, "k2": {"0": 2, "1": 2}}))
+    units.append(("C16.gen", {"gen": "watts_strogatz_hypergraph", "n": 4, "d": 2, "k": 2, "l": 1}))
     units.append(("C16.gen", {"gen": "dcsbm_hypergraph", "k1": {"0": 1, "1": 2, "2": 1}, "k2": {"0": 2, "1": 2}, "g1": {"0": 0, "1": 0, "2": 1}, "g2": {"0": 0, "1": 1}, "omega": [[2, 1], [0, 1]]}))
     for n in range(0, 6):
         for order in range(0, 4):
@@ -577,5 +588,5 @@ def spec(tier, seed):
         "assumptions": ["second engine: CrossHair 0.0.110 confirms range + injectivity of _index_to_edge_comb (n=5,m=3; n=6,m=2) and _index_to_edge_prod (n=3,m=3; n=4,m=2) over all paths",
                         "geometric() is replaced by its contract (>= 1; 1 at p=1; inf at p=0): the distribution is not modelled",
                         "deterministic generators (complete_hypergraph, flag complexes with ps=None) have no solver variable: their units are exhaustive concrete grids"],
-        "outside": ["distributional correctness", "large n", "watts_strogatz_hypergraph, ring_lattice, star_clique, sunflower (deterministic constructions not re-derived here)"],
+        "outside": ["distributional correctness", "large n", "ring_lattice, star_clique, sunflower (deterministic constructions not re-derived here; watts_strogatz_hypergraph: rewiring only, n=4, d=2)"],
     }
